@@ -5,5 +5,5 @@ Require Import LruV.A.ModelA LruV.A.MonitorsA LruV.A.PanicA LruV.B.RiCheck LruV.
 Extraction Language OCaml.
 
 Extraction "../ocaml/model.ml" stepA new_cache capacity len fullcap b2c do_clone do_drop do_into_iter pinned fixed
-  c01_mon c02_mon c04_nodup_mon c06_mon c13_mon c20_mon ri_check t_alloc panic_points clone_pts b_touch b_remove b_insert_new b_moves b_set_size b_reset b_removes b_links upd stepB absB bB_clone bB_into_iter bB_drop bpoints
+  c01_mon c02_mon c03_mon c04_nodup_mon c06_mon c13_mon c20_mon ri_check t_alloc panic_points clone_pts b_touch b_remove b_insert_new b_moves b_set_size b_reset b_removes b_links upd stepB absB bB_clone bB_into_iter bB_drop bpoints
   N.add N.mul N.div_eucl N.of_nat N.eqb N.testbit.
